@@ -51,6 +51,32 @@ class ByteCount:
         self.memo[mk] = v
         return v
 
+    def exact(self, key, param):
+        """(min, max) bytes appended over all entry->return paths of a loop-free function (None if it has loops)."""
+        it = analyse(self.prog, key, self.profile, type_invariants=self.inv)
+        fv = it.fv
+        if loops(fv):
+            return None
+        self.bound(key, param)          # fills per-callee memo
+        w = self._weights(key, param, it, [])
+        order = self._topo(set(fv.live), {b: [s for _, s in fv.succ[b] if s in fv.live] for b in fv.live}, lambda b: b, fv.entry)
+        if order is None:
+            return None
+        lo = {b: INF for b in fv.live}
+        hi = {b: -INF for b in fv.live}
+        lo[fv.entry] = hi[fv.entry] = w.get(fv.entry, 0)
+        for b in order:
+            if hi[b] == -INF:
+                continue
+            for _, s_ in fv.succ[b]:
+                if s_ in fv.live and s_ != b:
+                    lo[s_] = min(lo[s_], lo[b] + w.get(s_, 0))
+                    hi[s_] = max(hi[s_], hi[b] + w.get(s_, 0))
+        rets = [r for r in fv.returns() if hi.get(r, -INF) != -INF]
+        if not rets:
+            return None
+        return (min(lo[r] for r in rets), max(hi[r] for r in rets))
+
     # ------------------------------------------------------------------ internals
     def _aliases(self, it, st, o, param):
         r = referent(it, st, o)
@@ -59,9 +85,14 @@ class ByteCount:
     def _bound(self, key, param):
         prog = self.prog
         it = analyse(prog, key, self.profile, type_invariants=self.inv)
-        fv = it.fv
         mk = (key, param)
         notes = self.notes.setdefault(mk, [])
+        w = self._weights(key, param, it, notes)
+        return self._heaviest(it, it.fv, w, notes)
+
+    def _weights(self, key, param, it, notes):
+        prog = self.prog
+        fv = it.fv
         w = {}
         for b in fv.live:
             w[b] = 0
@@ -117,7 +148,7 @@ class ByteCount:
             else:
                 w[b] = INF
                 notes.append("unmodelled writer %s at line %s" % (nm, t.get("ln")))
-        return self._heaviest(it, fv, w, notes)
+        return w
 
     def _trip_bound(self, it, fv, head, body, notes):
         """Upper bound on the iterations of the natural loop (head, body)."""
